@@ -66,8 +66,8 @@ Fixpoint str_startswith (s p : text) {struct p} : bool :=
   | c :: p', d :: s' => ch_eqb c d && str_startswith s' p'
   end.
 
-(** `s.endswith(p)` *)
-Definition str_endswith (s p : text) : bool := str_startswith (rev s) (rev p).
+(** `s.endswith(p)`  (rev_append _ [] is List.rev in linear time) *)
+Definition str_endswith (s p : text) : bool := str_startswith (rev_append s []) (rev_append p []).
 
 (** `p in s` (substring test) *)
 Fixpoint str_contains (p s : text) : bool :=
